@@ -6,11 +6,16 @@ V=/verif
 mkdir -p /var/tmp/tryout
 for d in $WT/_neutral/*.diff; do
   k=$(basename $d .diff)
-  cd $WT && git checkout -q -- Lib && git apply --check $d 2>/dev/null || { echo "NEUTRAL $PFX-$k: patch does not apply"; continue; }
-  git apply $d
-  B=$(cmake --build _build 2>&1 | grep -c -E "error:|FAILED")
-  T=$(timeout 900 ctest --test-dir _build --timeout 600 2>&1 | grep -E "tests passed" | head -1)
-  git checkout -q -- Lib; cmake --build _build >/dev/null 2>&1
+  cd $WT && git checkout -q -- Lib && git clean -fdq Lib && git apply --check $d 2>/dev/null || { echo "NEUTRAL $PFX-$k: patch does not apply"; continue; }
+  if [ -s $WT/_neutral/$k.verdict ]; then   # cached by a parallel pre-pass (PREPASS=1)
+    B=$(sed -n 1p $WT/_neutral/$k.verdict); T=$(sed -n 2p $WT/_neutral/$k.verdict)
+  else
+    git apply $d
+    B=$(cmake --build _build 2>&1 | grep -c -E "error:|FAILED")
+    T=$(timeout 900 ctest --test-dir _build --timeout 600 2>&1 | grep -E "tests passed" | head -1)
+    git checkout -q -- Lib; git clean -fdq Lib; cmake --build _build >/dev/null 2>&1
+    if [ -n "$PREPASS" ]; then printf '%s\n%s\n' "$B" "$T" > $WT/_neutral/$k.verdict; echo "PRE $PFX-$k: build_errors=$B $T"; continue; fi
+  fi
   case "$B$T" in 0*"100% tests passed"*) ;; *) echo "NEUTRAL $PFX-$k: build_errors=$B ctest='$T' -> not kept"; continue;; esac
   cd $V
   timeout 1200 python3 $V/tools/try_seed.py $d > /var/tmp/tryout/neutral-$PFX-$k.txt 2>&1
